@@ -180,10 +180,10 @@ def ref(kind, path):
     return ("notfound",)
 
 
-def request(app, iface, path):
+def request(app, iface, path, root=""):
     from baize.exceptions import HTTPException
 
-    req = SV.AReq(path=path)
+    req = SV.AReq(path=path, root=root)
     if iface == "wsgi":
         res = SV.run_wsgi(app, SV.to_environ(req))
     else:
@@ -201,16 +201,16 @@ def request(app, iface, path):
     return ("status", res.status), res
 
 
-def judge(r, apps, spelling, iface, kind, path):
+def judge(r, apps, spelling, iface, kind, path, root=""):
     app = apps[(iface, kind)]
     _AUDIT["log"] = []
-    got, res = request(app, iface, path)
+    got, res = request(app, iface, path, root)
     want = ref(kind, path)
     r.count("evaluations")
     if want[0] in ("file", "redirect"):
         r.count("distinct_nontrivial")
-    w = {"spelling": spelling, "iface": iface, "kind": kind, "path": path}
-    where = f"{iface} {kind}({spelling}) on {path!r}"
+    w = {"spelling": spelling, "iface": iface, "kind": kind, "path": path, "root": root}
+    where = f"{iface} {kind}({spelling}) on {path!r}" + (f" mounted at {root!r}" if root else "")
     if _AUDIT["log"]:
         rel = os.path.relpath(_AUDIT["log"][0], _AUDIT["sandbox"])
         r.violation("opened-outside-directory", w, f"{where} opened <sandbox>/{rel} which is outside the served directory <sandbox>/root")
@@ -232,10 +232,10 @@ def judge(r, apps, spelling, iface, kind, path):
         if got[0] == "redirect":
             loc = got[1] or ""
             lp = unquote(urlsplit(loc).path)  # the target is percent-encoded for the header; compare decoded text on both sides
-            ok = lp == unquote(path + "/") or lp == "/" + unquote(path + "/").lstrip("/")
+            ok = lp == unquote(root + path + "/") or lp == "/" + unquote(root + path + "/").lstrip("/")
             if ok:
                 # following the redirect serves that directory's index page (if any)
-                got2, res2 = request(app, iface, path + "/")
+                got2, res2 = request(app, iface, path + "/", root)
                 want2 = ref(kind, path + "/")
                 if not ((want2[0] == "file" and got2 == ("file", want2[1])) or (want2[0] == "notfound" and got2 == ("notfound",))):
                     r.violation("redirect-target-wrong", w, f"{where}: redirected to {loc!r}; requesting {path + '/'!r} gave {got2!r:.80}, expected {want2!r:.80}")
@@ -306,6 +306,9 @@ def run_shard(desc, tier):
             for iface in ("wsgi", "asgi"):
                 for kind in ("Files", "Pages"):
                     judge(r, apps, spelling, iface, kind, path)
+                    if path.count("/") <= 2 and spelling == "absolute":
+                        # the app mounted under a prefix whose name also exists inside the served tree
+                        judge(r, apps, spelling, iface, kind, path, "/dir")
         r.sample({"spelling": spelling, "path": paths[len(paths) // 2], "apps": ["Files", "Pages"], "interfaces": ["wsgi", "asgi"]})
     finally:
         sb.close()
@@ -326,7 +329,7 @@ def replay(w):
     ROOTNAME[0] = "raíz文" if w["spelling"] == "unicode" else "root"
     try:
         apps = sb.apps(w["spelling"])
-        judge(r, apps, w["spelling"], w["iface"], w["kind"], w["path"])
+        judge(r, apps, w["spelling"], w["iface"], w["kind"], w["path"], w.get("root", ""))
     finally:
         sb.close()
     return bool(r.viol), {"violations": sorted(r.viol), "texts": [v[2][:300] for v in r.viol.values()]}
